@@ -115,6 +115,27 @@ func (c15) Build(tier string, seed uint64) []any {
 		}
 		cs = append(cs, c)
 	}
+	// (blocks8) saturated flat 8x8 blocks next to black ones at quantiser step 1 (quality 96..100):
+	// the largest legal DC differences, both directions, every producer
+	nB8 := 48
+	if th {
+		nB8 = 600
+	}
+	for i := 0; i < nB8; i++ {
+		r := gen.Sub(seed, "C15", "blocks8", i)
+		c := &c15Case{Gen: "blocks8", W: 8 * (1 + r.Intn(10)), H: 8 * (1 + r.Intn(10)), C: gen.Pick(r, 1, 3), Quality: gen.Pick(r, 96, 98, 100, 100), Class: "blocks8", CSeed: r.U64()}
+		switch i % 3 {
+		case 0:
+			c.Dir, c.Codec = "A", gen.Pick(r, "baseline", "extended")
+		case 1:
+			c.Dir, c.Codec, c.Src = "B", gen.Pick(r, "baseline", "extended"), "stdlib"
+		default:
+			c.Dir, c.Codec, c.Src = "B", gen.Pick(r, "baseline", "extended"), "ref"
+			c.HY, c.VY = gen.Pick(r, 1, 2), gen.Pick(r, 1, 2)
+			c.App = gen.Pick(r, "jfif", "adobe", "none")
+		}
+		cs = append(cs, c)
+	}
 	// pixel counts around 2^16 with moderate dimensions
 	for j, g := range areaSizes(th, seed) {
 		for i := 0; i < 3; i++ {
